@@ -100,7 +100,7 @@ def perturb(p, rnd, dt, dr):
 
 
 def make(kind, seed, n_poses=5, n_landmarks=2, closures=2, dt=0.2, dr=0.1, custom=False, fixed=(), noise=0.0, ids=None, cross=True,
-         parallel=True, isolated_fixed=False):
+         parallel=True, isolated_fixed=False, file_expressible=False):
     """A pose graph of `kind` in {R2,R3,SE2,SE3}: chain + loop closures (+ landmark edges with offsets, + custom edges).
 
     Returns (edges, vertices, truth) with fresh objects.  Measurements are the true relative motions (+ optional noise on the
@@ -131,8 +131,11 @@ def make(kind, seed, n_poses=5, n_landmarks=2, closures=2, dt=0.2, dr=0.1, custo
     for j, l in enumerate(lms):
         for a in rnd.sample(range(n_poses), min(2, n_poses)):
             off = rand_pose(kind, rnd, 0.5, 1.0)
+            if file_expressible and kind in ('SE2', 'R2'):
+                off = B.CLS_OF[kind].identity()          # (EDGE_SE2_XY has no offset field)
             z = (truth[a] + off).inverse + l
-            edges.append(EdgeLandmark([idmap(a), idmap(n_poses + j)], spd(B.DIM[kind], rnd, cross), z, off, offset_id=0))
+            # (file_expressible, SE(3): one offset parameter id per edge, to be entered in the graph's registry -- see registry_for)
+            edges.append(EdgeLandmark([idmap(a), idmap(n_poses + j)], spd(B.DIM[kind], rnd, cross), z, off, offset_id=(len(edges) if file_expressible and kind == 'SE3' else 0)))
     if custom:
         a, b = 0, n_poses - 1
         d = float(np.linalg.norm(np.array(truth[a].position) - np.array(truth[b].position)))
@@ -197,6 +200,17 @@ def lonely(kind):
     return f
 
 
+def registry_for(edges):
+    """The offset-parameter registry (Graph._g2o_params) that makes the SE(3) landmark edges of `edges` expressible in a .g2o file."""
+    from graphslam.g2o_parameters import G2OParameterSE3Offset
+    reg = {}
+    for e in edges:
+        if type(e) is EdgeLandmark and isinstance(e.offset, PoseSE3):
+            key = ('PARAMS_SE3OFFSET', e.offset_id)
+            reg[key] = G2OParameterSE3Offset(key, e.offset)
+    return reg
+
+
 class WeightedOdometry(EdgeOdometry):
     """A user subclass that overrides ONLY the cost: every chi^2 the library reports for a graph must be the sum of its edges' own calc_chi2()."""
 
@@ -215,6 +229,11 @@ def weighted(kind):
 
 
 TEMPLATES = {
+    # graphs a .g2o file can express (identity SE(2) offsets; SE(3) offsets registered as parameters by the session, names ending in 'reg')
+    'se2plain': lambda s: make('SE2', s, file_expressible=True, fixed=(2,)),
+    'se2plainc': lambda s: make('SE2', s, file_expressible=True, custom=True, fixed=(1, 3)),
+    'se3reg': lambda s: make('SE3', s, file_expressible=True, fixed=(1,)),
+    'se3regc': lambda s: make('SE3', s, file_expressible=True, custom=True, n_poses=4, fixed=(2,)),
     'se2weighted': weighted('SE2'),
     'se2huge': lambda s: make('SE2', s, n_poses=150, n_landmarks=10, closures=40),
     'se2big': lambda s: make('SE2', s, n_poses=24, n_landmarks=4, closures=8),
